@@ -50,6 +50,13 @@ SEEDS = {
     "C11b-negative-start-record-means-last": ("C11", "an explicit --InitialDistStep of -2 or lower: every negative index loads the last record", []),
     "C19b-float-accumulated-modulation-phase": ("C19", "modulation active and many steps (thousands): the sine's argument is accumulated in single precision, the modulation frequency is off by 0.1-0.2 %", []),
     "C17b-odd-padded-length-overread": ("C17", "RoundPadding=false and ceil(GridSize*padding) odd (e.g. -s 8 --padding 2.1) with an HDF5 output: updateCSR reads one complex sample past the end of the impedance", []),
+    "C01c-fp-switch-row-from-x-axis": ("C01", "4-point derivative stencil, a damping term, and position and energy axes with different zero bins (only one axis shifted): the one-sided stencil switches sides at the position axis' zero bin", ["C04"]),
+    "C02c-ykick-skips-source-cell0": ("C02", "a y-direction kick with whole displacement k <= 0 and non-zero data in the lowest cell of the kick axis: source cell 0 is treated as outside the grid", ["C01"]),
+    "C03c-odd-grid-half-cell-kick": ("C03", "an odd grid size: every kick-type map shifts by an extra half cell (the orbit still closes, the centre of rotation moves)", ["C02"]),
+    "C04c-moments-by-set-share": ("C04", "the charge on the grid differing from the set share (wide start losing its tails, no periodic renormalisation): length and spread are scaled by sqrt(Q_actual/Q_set)", ["C09"]),
+    "C05c-diffusion-capped-damping-not": ("C05", "e1/cell^2 between 1/4 and 1/2: only the diffusion coefficient is capped, the energy spread settles below 1 and the profile violates the Haissinski relation", ["C04"]),
+    "C06c-lone-bunch-readback-at-zero": ("C06", "exactly one filled bucket whose bucket number is not 0 (trailing empty buckets): the wake is read back at cell 0 instead of bucket*spacing", ["C08"]),
+    "C07c-stale-cutoff-filter": ("C07", "the same field object: updateCSR(fc>0) and later updateCSR(0): the cached high-pass filter is not reset, the spectrum stays filtered", ["C18"]),
     "C10-": ("C10", "", []),
     "C17-": ("C17", "", []),
 }
